@@ -705,6 +705,9 @@ def run_chunk(chunk):
                 devs.append((P[:3], ['export4', dest], {'src_layout': {'secedges': True}}))
             for dest in ('brackets', 'discobrackets', 'export3'):
                 devs.append((Pc[:3], ['brackets', dest], {'src_layout': {'empty_root': True}, 'dest_opts': ['gf']}))
+            for dest in DEST:       # a surplus closing bracket after every tree of a bracketed source (text between groups is skipped)
+                devs.append((Pc[:3], ['brackets', dest], {'src_layout': {'between': ')'}}))
+                devs.append((Pc, ['brackets', dest], {'src_layout': {'between': ' )', 'layout': 'indented'}}))
             for dest in DEST:       # TIGER-XML as distributed: secondary edges, head section, ids like s1_7
                 devs.append((P[:3], ['tigerxml', dest], {'src_layout': {'secedges': True, 'head': True, 'id_style': 'under'}}))
             devs.append((P, ['export3', 'brackets'], {'dest_opts': ['brackets_skipdisco']}))
